@@ -54,14 +54,21 @@ CONSUMERS = ['none', 'none', 'listoflists', 'lookup', 'dictlookup',
 
 def budget(tier):
     if tier == 'quick':
-        return {'cases': 16000, 'wall_cap_s': 240}
+        return {'cases': 30000, 'wall_cap_s': 240}
     return {'cases': 700000, 'wall_cap_s': 1500}
+
+
+C03_PAIRS = [(n, i) for n in C03_NAMES
+             for i in range(len(RECIPES[n].variants))]
 
 
 def gen_case(rng, tier, g):
     maxrows = 8 if tier == 'quick' else 12
-    name = C03_NAMES[g % len(C03_NAMES)] if rng.random() < 0.7 \
-        else rng.choice(C03_NAMES)
+    name = rng.choice(C03_NAMES)
+    vi0 = None
+    if rng.random() < 0.7:
+        # round robin over every (recipe, argument variant) pair
+        name, vi0 = C03_PAIRS[g % len(C03_PAIRS)]
     passthrough = False
     if rng.random() < 0.15:
         # views that hand the source's own row objects through unchanged
@@ -72,6 +79,8 @@ def gen_case(rng, tier, g):
         passthrough = True
     rec = RECIPES[name]
     stack = [[name, rng.randrange(len(rec.variants))]]
+    if vi0 is not None and not passthrough:
+        stack[0][1] = vi0
     if not rec.items and not rec.multi and (passthrough
                                             or rng.random() < 0.35):
         for _ in range(rng.choice([1, 1, 2])):
